@@ -250,8 +250,13 @@ where
     type V = T;
     type R = MirrorRegion<T>;
     type M = ();
-    fn m_push(_m: &mut (), _v: &T) -> MIdx {
-        MIdx::Opaque
+    fn m_push(_m: &mut (), v: &T) -> MIdx {
+        // the index of a mirror region is the value itself: for usize values the model knows it, so
+        // that usize index containers holding such indices can be costed
+        match (v as &dyn std::any::Any).downcast_ref::<usize>() {
+            Some(x) => MIdx::Dense(*x),
+            None => MIdx::Opaque,
+        }
     }
     fn m_clear(_m: &mut ()) {}
     fn m_merged(_s: &[&()]) {}
